@@ -15,6 +15,11 @@ import (
 
 var c15Stats = ev.New("C15", "c15")
 
+// real pauses (1.1 s) before a drawn action make a deadline that was not refreshed for
+// a player asked a second time in the same round visible at second granularity;
+// they cost wall time, so each process has a small budget
+var c15PauseBudget = 6
+
 func wagerOnly(actions []string) bool {
 	if len(actions) == 0 {
 		return false
@@ -96,6 +101,11 @@ func c15Body(c *run.Ctx) {
 				}
 				nontrivial = true
 			}
+		}
+		if d.Kind == "turn" && c15PauseBudget > 0 && d.GS.Status.CurrentWager > 0 && choose.Chance(c.Ch, "think", run.Scale(6, 3)) {
+			c15PauseBudget--
+			time.Sleep(1100 * time.Millisecond)
+			s.Label("real_thinking_pause")
 		}
 		t0 = time.Now().Unix()
 	}
